@@ -675,6 +675,7 @@ var c11Pairs = []c11Pair{
 	}},
 	{"layout", func(c *ev.Ctx, r *ev.Rand, fail func(string, any)) string {
 		sb := testSB()
+		sb.Version = []uint8{0, 2, 3}[r.Intn(3)] // the message codecs take the superblock version into account
 		if r.Bool() {
 			size, addr := r.Uint64()>>uint(r.Intn(50)), interestingAddr(r)
 			b1, err := core.EncodeLayoutMessage(core.LayoutContiguous, size, addr, sb, nil)
@@ -778,6 +779,7 @@ var c11Pairs = []c11Pair{
 	}},
 	{"attribute-info", func(c *ev.Ctx, r *ev.Rand, fail func(string, any)) string {
 		sb := testSB()
+		sb.Version = []uint8{0, 2, 3}[r.Intn(3)] // the message codecs take the superblock version into account
 		v := &core.AttributeInfoMessage{Version: 0, Flags: uint8(r.Intn(4)), FractalHeapAddr: interestingAddr(r), BTreeNameIndexAddr: interestingAddr(r)}
 		if v.Flags&1 != 0 {
 			v.MaxCreationIndex = uint64(r.Intn(65536))
@@ -806,6 +808,7 @@ var c11Pairs = []c11Pair{
 	}},
 	{"link", func(c *ev.Ctx, r *ev.Rand, fail func(string, any)) string {
 		sb := testSB()
+		sb.Version = []uint8{0, 2, 3}[r.Intn(3)] // the message codecs take the superblock version into account
 		name := randName(r, nameLen(r))
 		v := &core.LinkMessage{Version: 1, Name: name}
 		lsz := uint8(0)
@@ -908,6 +911,7 @@ var c11Pairs = []c11Pair{
 	}},
 	{"link-info", func(c *ev.Ctx, r *ev.Rand, fail func(string, any)) string {
 		sb := testSB()
+		sb.Version = []uint8{0, 2, 3}[r.Intn(3)] // the message codecs take the superblock version into account
 		v := &core.LinkInfoMessage{Version: 0, Flags: uint8(r.Intn(4)), FractalHeapAddress: interestingAddr(r), NameBTreeAddress: interestingAddr(r)}
 		if v.Flags&1 != 0 {
 			v.MaxCreationOrder = int64(r.Uint64() >> uint(1+r.Intn(62)))
